@@ -110,8 +110,8 @@ check(
 
 check(
     "C07",
-    "Hypothesis-generated Python modules x histories of 1..3 doctrans runs (API and CLI entry); erased-AST equality, comment-token sequence, protected-line subsequence and fault-atomicity oracles against the ORIGINAL file",
-    "Generated-input search over programs: after every run of a generated history the file must compile, its AST with docstrings/annotations/type comments erased must equal the original's (defaults, *args/**kwargs, kw-only marker, decorators, bases, statements, nested defs), the COMMENT tokens must be the same sequence and every line outside def headers and docstrings byte-identical; when doctrans raises (also on generated syntax-error files) the bytes must be unchanged.",
+    "Hypothesis-generated Python modules x histories of 1..3 doctrans runs (API and CLI entry); erased-AST equality, comment-token sequence, protected-line subsequence and fault-atomicity oracles against the ORIGINAL file; fault injection (the k-th call of one of eleven conversion steps is made to raise) for the atomicity clause",
+    "Generated-input search over programs: after every run of a generated history the file must compile, its AST with docstrings/annotations/type comments erased must equal the original's (defaults, *args/**kwargs, kw-only marker, decorators, bases, statements, nested defs), the COMMENT tokens must be the same sequence and every line outside def headers and docstrings byte-identical; when doctrans raises (on generated syntax-error files, on inputs that trip cdd, and when a generated (step, call number) fault is injected into a run on a valid module) the bytes must be unchanged and nothing else may be left in the directory.",
     "The five open shapes P19 (async docstring), P26 (comment in multi-line header), P27 (one-line def), P28 (raw docstring), P68 (decorated def with a trailing header comment) are generated in a separate layer under their own labels and relax only the clause each corrupts.",
 )
 
